@@ -221,32 +221,53 @@ class NetworkGraph(AbstractBaseIR):
                 if not scalar_edges:
                     continue
 
-                delays, spreads, nodes, add_delay = self._collect_delays_from_edges(scalar_edges, dde_approx=dde_approx)
-
-                # add synaptic buffer to output variables with delay
-                if add_delay:
-                    # Clear delay fields from edges so _generate_edge_equation ignores them.
-                    # Kept here (not inside _collect_delays_from_edges) so that method is pure.
-                    for s, t, e in scalar_edges:
-                        self.edges[s, t, e]['source_idx'] = []
-                        self.edges[s, t, e]['delay'] = None
-
-                    if vectorized:
-                        self._add_edge_buffer(node_name, op_name, var_name, edges=scalar_edges, delays=delays,
-                                              nodes=nodes, spreads=spreads, dde_approx=dde_approx)
+                # edges with a distributed delay (gamma-kernel chain) and edges with a plain delay (ring buffer or
+                # history look-up) cannot share one buffer; with dde_approx all delays are chains and stay together
+                if dde_approx:
+                    edge_groups = [scalar_edges]
+                else:
+                    spread_edges = [(s, t, e) for s, t, e in scalar_edges
+                                    if self.edges[s, t, e].get('spread') is not None
+                                    and np.sum(self.edges[s, t, e]['spread']) != 0]
+                    plain_edges = [edge for edge in scalar_edges if edge not in spread_edges]
+                    if spread_edges and any(np.sum(self.edges[s, t, e].get('delay') or 0) for s, t, e in plain_edges):
+                        edge_groups = [spread_edges, plain_edges]
                     else:
-                        # TODO: sort edges into unique delay/spread combinations and only loop over those
-                        if spreads:
-                            for i, (edge, delay, spread, node) in enumerate(zip(scalar_edges, delays, spreads, nodes)):
-                                self._add_edge_buffer(node_name, op_name, var_name, edges=[edge], delays=[delay],
-                                                      nodes=[node], spreads=[spread], dde_approx=dde_approx,
-                                                      buffer_id=f"_out{i}")
+                        # undelayed edges read slot 0 of the buffer of their source
+                        edge_groups = [scalar_edges]
+
+                n_out = 0
+                for group_idx, group in enumerate(edge_groups):
+
+                    delays, spreads, nodes, add_delay = self._collect_delays_from_edges(group, dde_approx=dde_approx)
+
+                    # add synaptic buffer to output variables with delay
+                    if add_delay:
+                        # Clear delay fields from edges so _generate_edge_equation ignores them.
+                        # Kept here (not inside _collect_delays_from_edges) so that method is pure.
+                        for s, t, e in group:
+                            self.edges[s, t, e]['source_idx'] = []
+                            self.edges[s, t, e]['delay'] = None
+
+                        if vectorized:
+                            self._add_edge_buffer(node_name, op_name, var_name, edges=group, delays=delays,
+                                                  nodes=nodes, spreads=spreads, dde_approx=dde_approx,
+                                                  buffer_id=f"_g{group_idx}" if group_idx else "")
                         else:
-                            for i, (edge, delay, node) in enumerate(zip(scalar_edges, delays, nodes)):
-                                if not delay and not dde_approx:
-                                    continue  # undelayed edge: keeps reading the source variable itself
-                                self._add_edge_buffer(node_name, op_name, var_name, edges=[edge], delays=[delay],
-                                                      nodes=[node], dde_approx=dde_approx, buffer_id=f"_out{i}")
+                            # TODO: sort edges into unique delay/spread combinations and only loop over those
+                            if spreads:
+                                for i, (edge, delay, spread, node) in enumerate(zip(group, delays, spreads, nodes)):
+                                    self._add_edge_buffer(node_name, op_name, var_name, edges=[edge], delays=[delay],
+                                                          nodes=[node], spreads=[spread], dde_approx=dde_approx,
+                                                          buffer_id=f"_out{n_out + i}")
+                            else:
+                                for i, (edge, delay, node) in enumerate(zip(group, delays, nodes)):
+                                    if not delay and not dde_approx:
+                                        continue  # undelayed edge: keeps reading the source variable itself
+                                    self._add_edge_buffer(node_name, op_name, var_name, edges=[edge], delays=[delay],
+                                                          nodes=[node], dde_approx=dde_approx,
+                                                          buffer_id=f"_out{n_out + i}")
+                    n_out += len(group)
 
         # go through nodes again, and collect and process all inputs to each node variable
         ##################################################################################
